@@ -63,11 +63,12 @@ func C01(run *ev.Run, tier string) map[string]interface{} {
 		cfg  drv.TableCfg
 		keys []val.Item
 	}
-	hKeys := []val.Item{hKey("k1"), hKey("k2")}
-	hrKeys := []val.Item{hrKey("a", "x"), hrKey("a", "y")}
+	// keys that are prefixes of one another and straddle the internal separator in sort order
+	hKeys := []val.Item{hKey("k1"), hKey("k10")}
+	hrKeys := []val.Item{hrKey("a", "x"), hrKey("a", "x-")}
 	if thorough {
-		hKeys = append(hKeys, hKey("k3"))
-		hrKeys = append(hrKeys, hrKey("b", "x"))
+		hKeys = append(hKeys, hKey("k-"))
+		hrKeys = append(hrKeys, hrKey("a-", "x"))
 	}
 	schemas := []schema{
 		{"H", drv.TableCfg{Hash: "h", HashT: "S", Billing: "PAY_PER_REQUEST"}, hKeys},
